@@ -309,3 +309,15 @@ CLAIMED.update({
          "note": STD_NOTE + ORDER_NOTE,
          "technique": "static analysis: exhaustive evaluation of extracted code over finite configuration domains against the documented sequence (K6/K3), call-graph reachability to kernel constructors vs table field (K10)"},
 })
+CLAIMED.update({
+ "C18": {"level": "other",
+         "text": "Watermark gating and limits evaluated from the extracted code over small domains: bufferevent_trigger_nolock_ on every (iotype, ignore-watermarks, length vs low mark) "
+                 "combination (read callback iff READ and (ignore or input >= read low), write callback iff WRITE and (ignore or output <= write low)); user read/write callbacks are "
+                 "invoked only through that path (who-may-invoke over the bufferevent units); the socket read callback never hands evbuffer_read more than high - len(input) and suspends "
+                 "instead of reading at/above the mark; bufferevent_inbuf_wm_cb suspends exactly when size >= high; bufferevent_setwatermark's stores and (un)suspend decisions; both "
+                 "filter directions over three consecutive filter calls with the destination growing between calls: the limit handed to the filter is high - current length each time "
+                 "in normal mode, -1 otherwise, and no call when the destination is full; be_pair_transfer moves at most high - len(dst input). "
+                 "Declined: resumption timing, watermark changes while suspended, interaction with callbacks that change the marks.",
+         "note": STD_NOTE + ORDER_NOTE,
+         "technique": "static analysis: evaluation of extracted gating/limit code over small value domains against the documented rule (K6), who-may-invoke (K2)"},
+})
